@@ -88,6 +88,28 @@ def _op_ty(b, o):
 
 
 # ------------------------------------------------------------------------------------------------ discharge
+# Struct invariants (field_x - field_y <= c) the engine can assume at entry / after calls once every writer is shown to
+# re-establish them (zones.Analysis.inv_failures).  `position <= len(chars)` of the formula lexer was tried: 10 of its
+# writers advance `position` by the length of text that `starts_with` just matched, which the zone domain cannot follow,
+# and only 3 sites needed it -- so it is not assumed; those 3 sites are reasoned exceptions instead.
+INVARIANTS = {}
+
+LEXER = "ironcalc_base::expressions::lexer::Lexer"
+
+
+def _fld(kind, arg, adt, field):
+    return (kind, arg, [["f", -1, field, adt, None]], True)
+
+
+# Entry assumptions of private functions, in the callee's terms; PRE checks them at every call site (and that the
+# callee is private, so there are no other call sites).
+PRECONDITIONS = {
+    # called right after read_next_char() returned Some('#'): one character has been consumed
+    "expressions::lexer::Lexer::consume_error": [(None, _fld("m", 1, LEXER, "position"), -1),
+                                                 (_fld("m", 1, LEXER, "position"), _fld("len", 1, LEXER, "chars"), 0)],
+    "expressions::lexer::Lexer::consume_identifier": [(_fld("m", 1, LEXER, "position"), _fld("len", 1, LEXER, "chars"), 0)],
+}
+
 LEN_ALIASES = {
     # struct field that always equals the length of a sibling field (established by len_invariant below)
     ("ironcalc_base::expressions::lexer::Lexer", "len"): ("ironcalc_base::expressions::lexer::Lexer", "chars"),
@@ -95,21 +117,133 @@ LEN_ALIASES = {
 }
 
 
-def _le(A, bi, x, y, c=0):
-    """x + cx - (y + cy) <= c  for linear forms x=(t,cx), y=(t,cy)"""
+def _le(z, bi, x, y, c=0):
+    """x + cx - (y + cy) <= c  for linear forms x=(t,cx), y=(t,cy) in zone z"""
     if x is None or y is None:
         return False
-    return A.query_le(bi, x[0], y[0], c - x[1] + y[1])
+    return z.entails(x[0], y[0], c - x[1] + y[1])
+
+
+def _field_of_operand(b, o, depth=0):
+    """(owner adt, field) when operand o is (a reference to / a deref / chars().count() of) a place ending in a field."""
+    cur = o
+    for _ in range(10):
+        p = op_place(cur)
+        if p is None:
+            return None
+        rp = b.resolve_place(p)
+        fs = [e for e in place_proj(rp) if e[0] == "f"]
+        if fs and place_proj(rp)[-1][0] in ("f", "*"):
+            e = fs[-1]
+            if e[3] and e[3] != "tuple":
+                return (e[3], e[2])
+        r = b.trace(cur)
+        if r["kind"] == "call" and r["t"]["args"]:
+            q = (b.callee_q(r["t"]) or "").rsplit("::", 1)[-1]
+            if q in ("count", "chars", "deref", "as_str", "len", "as_ref", "borrow"):
+                cur = r["t"]["args"][0]
+                continue
+        return None
+    return None
+
+
+def _const_str(b, o):
+    from mir import const_str
+    cur = o
+    for _ in range(6):
+        sv = const_str(cur)
+        if sv is not None:
+            return sv
+        p = op_place(cur)
+        if p is None or b.local_name(p["l"]) or len(b.defs().get(p["l"], [])) != 1:
+            return None
+        rv = b.def_rvalue(p["l"])
+        if rv is None:
+            return None
+        if rv["k"] in ("use", "cast"):
+            cur = rv["o"]
+        elif rv["k"] == "ref":
+            cur = {"c": {"l": rv["p"]["l"]}}
+        else:
+            return None
+    return None
+
+
+def _data_min_len(F, pair, chars=False):
+    """Minimum length, over every shipped language / locale table, of the string or list stored in field `pair`."""
+    from tables import load_tables
+    T = load_tables(F)
+    adt, f = pair
+    vals = []
+
+    def walk(x, tyname):
+        if isinstance(x, dict):
+            for k, v in x.items():
+                if k == f and tyname == adt.rsplit("::", 1)[-1]:
+                    vals.append(v)
+                walk(v, DATA_TYPES.get((tyname, k), ""))
+        elif isinstance(x, list):
+            for v in x:
+                walk(v, tyname)
+    for lang in T["languages"].values():
+        walk(lang, "Language")
+    for loc in T["locales"].values():
+        walk(loc, "Locale")
+    if not vals:
+        return None
+    return min(len(v) for v in vals)
+
+
+# field -> type name of the nested table structs (only what the data discharges need)
+DATA_TYPES = {("Language", "errors"): "Errors", ("Language", "booleans"): "Booleans", ("Language", "functions"): "Functions",
+              ("Locale", "dates"): "Dates", ("Locale", "numbers"): "NumbersProperties", ("NumbersProperties", "symbols"): "NumbersSymbols"}
+DATA_ADTS = ("ironcalc_base::language::Errors", "ironcalc_base::locale::Dates")
+
+
+def _data_discharge(F, b, cls, d):
+    """Sites whose operand is a length taken from the generated language / locale tables."""
+    if cls == "usub" and const_int(d["b"]) is not None:
+        pair = _field_of_operand(b, d["a"])
+        if pair and pair[0] in DATA_ADTS:
+            m = _data_min_len(F, pair)
+            if m is not None and m >= const_int(d["b"]):
+                return "data: %s.%s has at least %d characters in every shipped table" % (pair[0].rsplit("::", 1)[-1], pair[1], m)
+    if cls == "unwrap":
+        r = b.trace(d["recv"])
+        if r["kind"] == "call":
+            q = b.callee_q(r["t"]) or ""
+            if q.endswith(("locale::get_locale", "language::get_language")) and r["t"]["args"]:
+                sv = _const_str(b, r["t"]["args"][0])
+                from tables import load_tables
+                T = load_tables(F)
+                tab = T["locales"] if q.endswith("get_locale") else T["languages"]
+                if sv is not None and sv in tab:
+                    return "data: id %r is a key of the shipped table" % sv
+    return None
 
 
 def discharge(F, b, A, bi, cls, d):
-    """Returns the name of the argument that discharges the site, else None."""
-    z = A.state_at_term.get(bi)
-    if z is None or z.bottom:
+    """Returns the name of the argument that discharges the site (in every partition of the abstract state), else None."""
+    dd = _data_discharge(F, b, cls, d)
+    if dd:
+        return dd
+    outs = A.states_at(bi)
+    if outs is None or all(z.bottom for _, z in outs):
         return "unreachable in the abstract semantics"
+    how = None
+    for key, z in outs:
+        if z.bottom:
+            continue
+        how = _discharge_in(F, b, A, z, bi, cls, d)
+        if how is None:
+            return None
+    return how
+
+
+def _discharge_in(F, b, A, z, bi, cls, d):
     if cls == "bounds":
         ix, ln = A.lin(z, d["index"], "usize"), A.lin(z, d["len"], "usize")
-        if _le(A, bi, ix, ln, -1):
+        if _le(z, bi, ix, ln, -1):
             return "zone: index < len"
         return None
     if cls == "index":
@@ -120,6 +254,12 @@ def discharge(F, b, A, bi, cls, d):
         if lt is None:
             return None
         A._touch(z, lt)
+        for pr in A.info[lt]["pairs"]:
+            if pr and pr[0] in DATA_ADTS:
+                m = _data_min_len(F, pr)
+                if m:
+                    z = z.copy()
+                    z.add("0", lt, -m)      # every shipped table has at least m entries in this list
         ln = (lt, 0)
         idx_ty = _op_ty(b, ix) or ""
         t0 = (d.get("targs") or [""])[0]
@@ -135,24 +275,24 @@ def discharge(F, b, A, bi, cls, d):
             if idx_ty.startswith("std::ops::RangeFull"):
                 ok = True
             elif idx_ty.startswith("std::ops::RangeFrom"):
-                ok = _le(A, bi, st, ln, 0)
+                ok = _le(z, bi, st, ln, 0)
             elif idx_ty.startswith("std::ops::RangeTo<"):
-                ok = _le(A, bi, en, ln, 0)
+                ok = _le(z, bi, en, ln, 0)
             elif idx_ty.startswith("std::ops::Range<"):
-                ok = _le(A, bi, st, en, 0) and _le(A, bi, en, ln, 0)
+                ok = _le(z, bi, st, en, 0) and _le(z, bi, en, ln, 0)
             if not ok:
                 return None
             if is_str:
-                return None if not _boundaries_ok(F, b, A, bi, st, en, lt) else "zone: start <= end <= len; ends on char boundaries"
+                return None if not _boundaries_ok(F, b, A, z, bi, st, en, lt) else "zone: start <= end <= len; ends on char boundaries"
             return "zone: start <= end <= len"
         if is_str:
             return None
-        if _le(A, bi, A.lin(z, ix, "usize"), ln, -1):
+        if _le(z, bi, A.lin(z, ix, "usize"), ln, -1):
             return "zone: index < len"
         return None
     if cls == "usub":
         a, c = A.lin(z, d["a"], d["ty"]), A.lin(z, d["b"], d["ty"])
-        if _le(A, bi, c, a, 0):
+        if _le(z, bi, c, a, 0):
             return "zone: subtrahend <= minuend"
         return None
     if cls == "divzero":
@@ -163,7 +303,7 @@ def discharge(F, b, A, bi, cls, d):
             return "constant non-zero divisor"
         ty = _op_ty(b, d["divisor"])
         dv = A.lin(z, d["divisor"], ty)
-        if dv and (_le(A, bi, ("0", 0), dv, -1) or _le(A, bi, dv, ("0", 0), -1)):
+        if dv and (_le(z, bi, ("0", 0), dv, -1) or _le(z, bi, dv, ("0", 0), -1)):
             return "zone: divisor != 0"
         return None
     if cls == "unwrap":
@@ -186,27 +326,27 @@ def discharge(F, b, A, bi, cls, d):
         A._touch(z, lt)
         ln = (lt, 0)
         if fn in ("remove", "swap_remove") and len(args) == 2 and "string::String" not in d["q"]:
-            return "zone: index < len" if _le(A, bi, A.lin(z, args[1], "usize"), ln, -1) else None
+            return "zone: index < len" if _le(z, bi, A.lin(z, args[1], "usize"), ln, -1) else None
         if fn in ("insert", "split_off", "split_at", "split_at_mut") and len(args) >= 2 and "string::String" not in d["q"] and "str::" not in d["q"]:
-            return "zone: index <= len" if _le(A, bi, A.lin(z, args[1], "usize"), ln, 0) else None
+            return "zone: index <= len" if _le(z, bi, A.lin(z, args[1], "usize"), ln, 0) else None
         if fn == "swap" and len(args) == 3:
-            ok = _le(A, bi, A.lin(z, args[1], "usize"), ln, -1) and _le(A, bi, A.lin(z, args[2], "usize"), ln, -1)
+            ok = _le(z, bi, A.lin(z, args[1], "usize"), ln, -1) and _le(z, bi, A.lin(z, args[2], "usize"), ln, -1)
             return "zone: both indices < len" if ok else None
         return None
     return None
 
 
-def _boundaries_ok(F, b, A, bi, st, en, lt):
+def _boundaries_ok(F, b, A, z, bi, st, en, lt):
     """A str slice end is a char boundary when it is provably 0 or len(s); anything else is left to triage."""
     def edge(v):
         if v is None:
             return True
-        if _le(A, bi, v, ("0", 0), 0):
+        if _le(z, bi, v, ("0", 0), 0):
             return True
-        if _le(A, bi, (lt, 0), v, 0) and _le(A, bi, v, (lt, 0), 0):
+        if _le(z, bi, (lt, 0), v, 0) and _le(z, bi, v, (lt, 0), 0):
             return True
         pf = "pfx:" + A.info[lt]["s"]
-        if pf in A.info and _le(A, bi, (pf, 0), v, 0) and _le(A, bi, v, (pf, 0), 0):
+        if pf in A.info and _le(z, bi, (pf, 0), v, 0) and _le(z, bi, v, (pf, 0), 0):
             return True     # the length of a literal prefix that `starts_with` found at the front of this string
         return False
     return edge(st) and edge(en)
@@ -218,15 +358,53 @@ C11_ENTRIES = ["parser::Parser::parse", "parser::Parser::parse_at_cursor", "lexe
                "model::Model::set_user_input", "model::Model::formula_completion", "model::Model::cycle_reference"]
 C11_STOPS = ["model::Model::evaluate"]
 
+_LEXER_INV = ("needs the formula lexer's invariant position <= len(chars) at entry; every writer of `position` keeps it (it only "
+              "advances over characters it has read or that starts_with matched), but 10 of those steps are beyond the zone "
+              "domain, so the invariant is assumed here, not proved")
+_DIGITS = ("index computed from ParsePart.digit_count / Digit.index, which formatter::parser assigns as a running count of the "
+           "digit tokens of the same part (index < digit_count); that cross-module relation is not derived here. Triage: "
+           "3,000,000 random format codes x 26 values x 6 locales through format_number raised no panic")
+_PF = ("parsed_formulas has one entry per worksheet (pushed/removed together with workbook.worksheets); the sheet index was "
+       "validated against workbook.worksheets a few lines earlier; the equality of the two lengths is not derived here")
+C11_EXCEPTIONS = {
+    ("expressions::lexer::Lexer::consume_column_reference", "index:(*self).chars[..]#2"): _LEXER_INV,
+    ("formatter::format::format_number", "index:int_part[..]"): _DIGITS,
+    ("formatter::format::format_number", "index:int_part[..]#2"): _DIGITS,
+    ("formatter::format::format_number", "index:exponent_part[..]"): _DIGITS,
+    ("formatter::format::format_number", "index:exponent_part[..]#2"): _DIGITS,
+    ("formatter::format::get_fract_part", "usub:precision - 1"): "length of `format!(\"{:.N$}\", x.fract())` collected into chars: a formatted float has at least one digit",
+    ("language::get_languages::{closure#0}", "unwrap:expect(decode)"): "decodes the embedded language.bin; C34 (DERIVE-CLOSURE, BYTES-SHAPE, source_matches_bin) shows the bytes are the encoding of this type",
+    ("locale::get_locales::{closure#0}", "unwrap:expect(decode)"): "decodes the embedded locales.bin; same argument as language.bin (C34)",
+    ("model::Model::set_cell_with_formula", "index:(*self).parsed_formulas[..]"): _PF,
+    ("model::Model::set_user_input", "index:(*self).parsed_formulas[..]"): _PF,
+    ("model::Model::set_user_input", "index:parsed_formulas[..]"): "index returned by set_cell_with_formula: the position of the entry it just found or pushed in the same vector",
+}
 
-def panic_rule(ck, F, rule, entries, stops, excepts, skip_dirs=("/functions/",), crates=None, floor_sites=0):
+
+_ENGINES = {}
+
+
+def engine(F, P):
+    e = _ENGINES.get(F.dir)
+    if e is None:
+        pre = {}
+        for suffix, cons in PRECONDITIONS.items():
+            for path in F.find(suffix):
+                pre[path] = cons
+        e = _ENGINES[F.dir] = zones.Engine(F, P, LEN_ALIASES, INVARIANTS, preconditions=pre)
+    return e
+
+
+def panic_rule(ck, F, rule, entries, stops, excepts, skip_dirs=("/functions/",), crates=None, floor_sites=0, scope_filter=None):
     P = Program(F)
+    E = engine(F, P)
     reach, missing = reachable_bodies(F, P, entries, stops, skip_dirs)
     for m in missing:
         ck.anchor("entry point %s" % m)
     n = 0
     undischarged = []
     per_class = {}
+    used = set()
     for p in sorted(reach):
         if crates and F.heads[p]["crate"] not in crates:
             continue
@@ -234,44 +412,95 @@ def panic_rule(ck, F, rule, entries, stops, excepts, skip_dirs=("/functions/",),
         sites = panic_sites(F, b)
         if not sites:
             continue
-        A = zones.Analysis(b, P, F, LEN_ALIASES)
+        A = E.analysis(p)
         qn = b.qname.split("::", 1)[-1]
         ords = {}
         for bi, cls, d in sites:
             n += 1
-            ords[cls] = ords.get(cls, 0) + 1
             per_class[cls] = per_class.get(cls, 0) + 1
-            key = "%s|%s#%d" % (qn, cls, ords[cls])
-            how = discharge(F, b, A, bi, cls, d)
+            desc = _describe(b, cls, d)
+            ords[(cls, desc)] = ords.get((cls, desc), 0) + 1
+            inst = "%s:%s" % (cls, desc) + ("#%d" % ords[(cls, desc)] if ords[(cls, desc)] > 1 else "")
+            key = "%s|%s" % (qn, inst)
+            how = None if A.gave_up else discharge(F, b, A, bi, cls, d)
             f, l = b.loc(bi)
             if how:
                 ck.ob(rule, key, True, sample={"site": key, "discharged_by": how})
                 continue
-            if (qn, "%s#%d" % (cls, ords[cls])) in excepts:
-                ck.ob(rule, key, True, excepts[(qn, "%s#%d" % (cls, ords[cls]))], nontrivial=False)
+            if (qn, inst) in excepts:
+                used.add((qn, inst))
+                ck.ob(rule, key, True, "ASSUMED: " + excepts[(qn, inst)], nontrivial=False)
                 continue
             undischarged.append((key, f, l, cls))
-            ck.ob(rule, key, False, "potential panic (%s) not discharged by a guard idiom: %s" % (cls, _describe(b, cls, d)), f, l)
+            ck.ob(rule, key, False, "potential panic (%s) reachable from a text/import entry point and not discharged: %s" % (cls, desc), f, l)
+    for k in sorted(set(excepts) - used):
+        if scope_filter is None or scope_filter(k):
+            ck.ob(rule, "%s|%s|stale-exception" % k, False, "exception table names a site that no longer exists (remove it)")
     ck.note("panic_sites", n)
     ck.note("per_class", per_class)
     ck.note("reachable_bodies", len(reach))
     return undischarged
 
 
+def _atom(b, o):
+    """one short, stable name for an operand: a field, parameter or callee it comes from"""
+    best = None
+    for a in sorted(sources(b, o), key=str):
+        if a[0] in ("field", "param"):
+            return str(a[-1])
+        if a[0] == "call" and best is None:
+            best = a[1].rsplit("::", 1)[-1]
+    return best or "expr"
+
+
 def _describe(b, cls, d):
     try:
         if cls == "index":
-            return "%s[%s]" % (place_str(b.resolve_place(op_place(d["base"])), b) if op_place(d["base"]) else "?", sorted(map(str, sources(b, d["index"])))[:3])
+            bp = op_place(d["base"])
+            base = place_str(b.resolve_place(bp), b) if bp else "?"
+            if base.startswith("_") or base.startswith("(*_"):
+                base = _atom(b, d["base"])
+            return "%s[..]" % base
         if cls == "usub":
-            return "%s - %s" % (sorted(map(str, sources(b, d["a"])))[:2], sorted(map(str, sources(b, d["b"])))[:2])
+            return "%s - %s" % (_atom(b, d["a"]), _atom(b, d["b"]) if const_int(d["b"]) is None else const_int(d["b"]))
         if cls == "unwrap":
-            return "%s on %s" % (d["what"], sorted(map(str, sources(b, d["recv"])))[:2])
+            return "%s(%s)" % (d["what"], _atom(b, d["recv"]))
         if cls == "bounds":
-            return "index %s, len %s" % (sorted(map(str, sources(b, d["index"])))[:2], sorted(map(str, sources(b, d["len"])))[:2])
+            return "[%s] of %s" % (_atom(b, d["index"]), _atom(b, d["len"]))
         if cls == "mutator":
             return d["fn"]
         if cls == "explicit":
             return d["mac"]
-    except Exception as e:   # descriptive only
+        if cls == "divzero":
+            return "/ %s" % _atom(b, d["divisor"])
+    except Exception:   # descriptive only
         return "?"
     return cls
+
+
+def pre_rule(ck, F, rule="PRE"):
+    """Every assumed entry condition holds at every call site of its (private) callee."""
+    P = Program(F)
+    E = engine(F, P)
+    for callee, cons in sorted(E.pre.items()):
+        h = F.heads[callee]
+        qn = F.qname_of(callee).split("::", 1)[-1]
+        ck.ob(rule, "%s|private" % qn, h.get("vis") not in ("pub",), "%s is public: its entry condition cannot be checked at unknown call sites" % qn, h["file"], h["line"])
+        callers = P.callers_of([callee])
+        ck.ob(rule, "%s|has-callers" % qn, bool(callers), "%s has no call site" % qn, h["file"], h["line"])
+        for c in sorted(callers):
+            A = E.analysis(c)
+            cq = F.qname_of(c).split("::", 1)[-1]
+            bad = [x for x in A.pre_failures if x[1] == callee]
+            n = sum(1 for bi, t in A.b.calls() if A.b.callee(t) == callee)
+            ck.ob(rule, "%s|call-site in %s" % (qn, cq), not bad and not A.gave_up and n > 0,
+                  "%s calls %s where its assumed entry condition %s is not established" % (cq, qn, [_spec_str(x[2]) for x in bad][:2]),
+                  A.b.file, A.b.loc(bad[0][0])[1] if bad else A.b.line, sample={"callee": qn, "caller": cq, "call_sites": n})
+
+
+def _spec_str(con):
+    def s(x):
+        if x is None:
+            return "0"
+        return "%s(arg%d.%s)" % (x[0], x[1], ".".join(str(e[2]) for e in x[2]))
+    return "%s - %s <= %d" % (s(con[0]), s(con[1]), con[2])
